@@ -392,6 +392,39 @@ def shipped_rules(ctx):
         except ERRORS as err:
             ctx.violate("shipped-roundtrip-rejected", {"rule": rule.name, "error": str(err)[:200]}, case)
     ctx.case(("shipped", len(real_rules)), nontrivial=True, sample={"shipped_rules": len(real_rules)})
+    # the same files through the pipeline's own constructors with multipliers: every distance is the kb value of the
+    # text scaled once (Ruleset.from_files with multipliers, and get_ruleset for the fungal taxon)
+    from types import SimpleNamespace
+    from antismash.common.hmm_rule_parser.cluster_prediction import Ruleset
+    from antismash.common.hmm_rule_parser.structures import Multipliers
+    base = {ref.name: (ref.cutoff, ref.neighbourhood) for ref in ref_rules}
+    for cmul, nmul in ((2.0, 3.0), (1.0, 1.5), (0.5, 1.0)):
+        for route in ("from_files", "get_ruleset"):
+            try:
+                if route == "from_files":
+                    ruleset = Ruleset.from_files(hmm_detection.SIGNATURE_FILE, hmm_detection.HMM_FILE,
+                                                 hmm_detection._get_rule_files_for_strictness("loose"),  # pylint: disable=protected-access
+                                                 hmm_detection.CATEGORIES, hmm_detection.EQUIVALENCE_GROUPS, "verif",
+                                                 dynamic_profiles=hmm_detection.DYNAMIC_PROFILES,
+                                                 multipliers=Multipliers(cmul, nmul))
+                else:
+                    hmm_detection._RULESETS.clear()  # pylint: disable=protected-access
+                    ruleset = hmm_detection.get_ruleset(SimpleNamespace(
+                        hmmdetection_strictness="loose", hmmdetection_limit_to_rules=[], hmmdetection_limit_to_categories=[],
+                        taxon="fungi", hmmdetection_fungal_cutoff_multiplier=cmul,
+                        hmmdetection_fungal_neighbourhood_multiplier=nmul))
+                    hmm_detection._RULESETS.clear()  # pylint: disable=protected-access
+            except Exception as err:  # pylint: disable=broad-except
+                ctx.violate("shipped-ruleset-construction-crash", dict(core.crash_facts(err), route=route), case)
+                continue
+            for rule in ruleset.rules:
+                ctx.count("shipped:scaled-distances-compared")
+                expected = (int(base[rule.name][0] * cmul), int(base[rule.name][1] * nmul))
+                if (rule.cutoff, rule.neighbourhood) != expected:
+                    ctx.violate("shipped-distances-scaled-once",
+                                {"route": route, "rule": rule.name, "multipliers": [cmul, nmul],
+                                 "got": [rule.cutoff, rule.neighbourhood], "expected": list(expected)}, case)
+                    break
     del get_signature_profiles
 
 
@@ -456,7 +489,7 @@ def replay(ctx, case):
     run_file_case(ctx, case, rng, 0)
 
 
-from vf import findings  # noqa: E402  pylint: disable=wrong-import-position
+from vf import core, findings  # noqa: E402  pylint: disable=wrong-import-position
 
 
 @findings.classifier("c02_roundtrip_distance_not_whole_kb")
